@@ -94,7 +94,8 @@ def sequences(ctx):
     return seqs
 
 
-STACKS = ["PooledClient", "HashClient", "HashClient(use_pooling)", "RetryingClient(attempts=1)", "RetryingClient(attempts=3)"]
+STACKS = ["PooledClient", "HashClient", "HashClient(use_pooling)", "RetryingClient(attempts=1)", "RetryingClient(attempts=3)",
+          "HashClient(str spec)"]      # the one server written as a string ('unix:/path', 'host:port'): the same server
 
 
 def _mk(stack):
@@ -102,6 +103,8 @@ def _mk(stack):
         from pymemcache.client.base import Client
         from pymemcache.client.hash import HashClient
         from pymemcache.client.retrying import RetryingClient
+        if stack == "HashClient(str spec)":
+            return HashClient(["unix:" + server if isinstance(server, str) else "%s:%d" % server], **kw)
         if stack.startswith("HashClient"):
             return HashClient([server], use_pooling=stack != "HashClient", **kw)
         return RetryingClient(Client(server, **kw), attempts=1 if "=1" in stack else 3)
